@@ -70,8 +70,12 @@ func (x *Exec) hintsAt(short, long string, pos token.Pos, st *State) {
 		x.u.AddObl(fmt.Sprintf("%s / hint[%s] before %s", x.prefix, clauseName(h.C, i), h.Callee), "hint", h.C.Text, x.curBlockReach, g, x.pos(pos), x.prefix)
 		// the cut is visible only to obligations carrying the same property tag (the text before
 		// the first '.' of the clause name): other obligations keep the context they were proved in
+		// the group is the clause name up to its first '/', else up to its first '.'
+		// (C03.s/scores-sound -> C03.s; C06.tokens-kept -> C06)
 		tag := clauseName(h.C, i)
-		if j := strings.Index(tag, "."); j >= 0 {
+		if j := strings.Index(tag, "/"); j >= 0 {
+			tag = tag[:j]
+		} else if j := strings.Index(tag, "."); j >= 0 {
 			tag = tag[:j]
 		}
 		flag := x.u.W.Const("hint.on."+tag, SBool)
@@ -847,6 +851,9 @@ func (x *Exec) modularCall(site ssa.Instruction, fn *ssa.Function, fc *FuncContr
 	}
 	if !x.pure {
 		for _, en := range fc.Ensures {
+			if en.Private {
+				continue
+			}
 			env := &SpecEnv{u: u, x: x, pkg: pkg, vars: postVars, bound: map[string]SVal{}, cur: st, old: pre, reach: x.curBlockReach, callSite: true, noAlts: true}
 			g, err := env.EvalBool(en.Expr)
 			if err != nil {
@@ -1021,12 +1028,16 @@ func (x *Exec) permuteSlice(sl Term, elem types.Type, st *State) (string, Term, 
 	// permutation
 	k := Term{"k!q", SInt}
 	inb := func(t Term) Term { return And(Ge(t, IntLit(0)), Lt(t, n)) }
-	// two directed halves, each triggered only by a read of "its" heap at the slice: stated as one
-	// axiom with the patterns (pi k) and (pinv k) the instances feed each other for ever
-	// (pinv(pinv(...k))), and every two-variable fact about the slice then blows up
-	fwd := And(inb(piOf(k)), Eq(Select(nh, Elem(sl, k)), Select(h, Elem(sl, piOf(k)))), Eq(pinvOf(piOf(k)), k))
+	// pi is a bijection of the integers with inverse pinv that maps the index range onto itself
+	// (the permutation extended by the identity): the two inverse laws are unconditional unit
+	// equalities, so the solver merges pinv(pi k) with k as soon as either term appears and the
+	// instantiation chains pi(pinv(pi ...)) stop at once. The element laws are triggered only by
+	// a read of "their" heap at the slice.
+	x.assume(Term{fmt.Sprintf("(forall ((k!q Int)) (! (and (= (%s (%s k!q)) k!q) (= %s %s)) :pattern ((%s k!q))))", pinv, pi, inb(piOf(k)).S, inb(k).S, pi), SBool})
+	x.assume(Term{fmt.Sprintf("(forall ((k!q Int)) (! (and (= (%s (%s k!q)) k!q) (= %s %s)) :pattern ((%s k!q))))", pi, pinv, inb(pinvOf(k)).S, inb(k).S, pinv), SBool})
+	fwd := Eq(Select(nh, Elem(sl, k)), Select(h, Elem(sl, piOf(k))))
 	x.assume(Term{fmt.Sprintf("(forall ((k!q Int)) (! (=> %s %s) :pattern ((select %s %s))))", inb(k).S, fwd.S, nh.S, Elem(sl, k).S), SBool})
-	bwd := And(inb(pinvOf(k)), Eq(Select(h, Elem(sl, k)), Select(nh, Elem(sl, pinvOf(k)))), Eq(piOf(pinvOf(k)), k))
+	bwd := Eq(Select(h, Elem(sl, k)), Select(nh, Elem(sl, pinvOf(k))))
 	x.assume(Term{fmt.Sprintf("(forall ((k!q Int)) (! (=> %s %s) :pattern ((select %s %s))))", inb(k).S, bwd.S, h.S, Elem(sl, k).S), SBool})
 	return hn, nh, n
 }
